@@ -21,8 +21,11 @@ CONSTANTS LonNodes, LatNodes, Spacings
 VARIABLES src, tgt, pc, bil, near
 vars == <<src, tgt, pc, bil, near>>
 
-Grids == [lon : LonNodes, lat : LatNodes, sp : Spacings, off : {0, 1}]
+Grids == [lon : LonNodes, lat : LatNodes, sp : Spacings, off : {0, 1, 2}]
+(* twins: the same nodes rotated about the axis by a different number of half cells *)
+Twins(s, t) == s.lon = t.lon /\ s.lat = t.lat /\ s.sp = t.sp /\ s.off # t.off
 PairOk(s, t) == \/ s = t
+                \/ Twins(s, t)
                 \/ /\ s.off = 0 /\ t.off = 0
                    /\ (s.sp = t.sp \/ (s.lon = t.lon /\ s.lat = t.lat))
 
@@ -44,6 +47,7 @@ Stochastic(tab) == \A t \in DOMAIN tab :
 IsIdentity(tab) == \A t \in DOMAIN tab : \A s \in DOMAIN tab[t] :
     tab[t][s] = (IF s = t THEN One ELSE Zero)
 
+NoShift == 99
 (* source nodes that are the same point of the sphere as target node (i, j); equal grids only *)
 Coincident(gr, i, j) == {p \in (1..gr.lon) \X (1..gr.lat) :
                            p[2] = j /\ (p[1] = i \/ IsPole(gr, j))}
@@ -63,7 +67,12 @@ Bilinear ==
 Nearest ==
   /\ pc = "nearest"
   /\ near' = [const |-> TRUE, selection |-> TRUE,
-              mask |-> IF src = tgt
+              (* twins a whole number of cells apart: target node i coincides with source node i + shift;
+                 half a cell apart the two neighbours tie (NoShift: unspecified) *)
+              shift |-> IF src = tgt THEN 0
+                        ELSE IF Twins(src, tgt) /\ (tgt.off - src.off) % 2 = 0 THEN (tgt.off - src.off) \div 2
+                        ELSE NoShift,
+              mask |-> IF src = tgt \/ (Twins(src, tgt) /\ (tgt.off - src.off) % 2 = 0)
                        THEN [i \in 1..tgt.lon |-> [j \in 1..tgt.lat |->
                                IF Coincident(src, i, j) = {<<i, j>>} THEN 1 ELSE 0]]
                        ELSE [i \in 1..tgt.lon |-> [j \in 1..tgt.lat |-> 0]]]
@@ -78,6 +87,10 @@ BilinearReproducesConstants == Done => Stochastic(bil.lonw) /\ Stochastic(bil.la
 (* equal grids: both tables are identity matrices *)
 BilinearIdentityOnEqualGrids == (Done /\ src = tgt) => IsIdentity(bil.lonw) /\ IsIdentity(bil.latw)
 (* equal grids: the zero-distance source node is unique except on pole rows *)
+ShiftCoincides == (Done /\ near.shift # NoShift) => \A k \in 1..tgt.lon :
+    LET kk == ((k - 1 + near.shift) % src.lon) + 1
+        d == RSub(Lon(tgt)[k], Lon(src)[kk])
+    IN  d = Zero \/ d = One \/ d = <<-1, 1>>                   \* the same longitude (mod one turn)
 NearestIdentityWhereUnique == (Done /\ src = tgt) => \A i \in 1..tgt.lon : \A j \in 1..tgt.lat :
     /\ <<i, j>> \in Coincident(src, i, j)
     /\ near.mask[i][j] = 1 <=> ~(IsPole(src, j) /\ src.lon > 1)
@@ -85,5 +98,5 @@ AxesIncrease == StrictlyIncreasing(Lon(src)) /\ StrictlyIncreasing(Lat(src))
 
 Export == Done =>
    PrintT(<<"CASE", ToJson([src |-> src, tgt |-> tgt, equal |-> src = tgt,
-                            nearmask |-> near.mask])>>)
+                            nearmask |-> near.mask, shift |-> near.shift])>>)
 =============================================================================
